@@ -241,12 +241,65 @@ fn shaped(k: u64, rng: &Rng) -> String {
     out
 }
 
+/// Two items that share a *name* other than a state variable's: item A declares it, item B declares or uses it.
+/// Returns (number of combinations, text of combination k).
+fn namesakes(k: u64, rng: &Rng) -> (u64, String) {
+    let definers: [&str; 13] = [
+        "contract HolderA {\n    address stewardA;\n    uint256 reserveA;\n    modifier %X%() {\n        require(msg.sender == stewardA, \"not the steward\");\n        _;\n    }\n    function topUpA(uint256 amount) public %X% {\n        reserveA = reserveA + amount;\n    }\n}\n",
+        "contract HolderA {\n    modifier %X%() {\n        _;\n    }\n    function pokeA() public %X% {}\n}\n",
+        "contract HolderA {\n    enum %X% { Off, On }\n    uint8 smallA;\n    uint256 bigA;\n    uint8 tinyA;\n}\n",
+        "enum %X% { Off, On }\n",
+        "struct %X% {\n    uint8 a;\n    uint256 b;\n    uint8 c;\n}\n",
+        "type %X% is uint8;\n",
+        "library %X% {\n    function add(uint256 a, uint256 b) internal pure returns (uint256) {\n        return a + b;\n    }\n    function transfer(address to, uint256 v) internal {}\n}\n",
+        "interface %X% {\n    function transfer(address to, uint256 v) external returns (bool);\n    function approve(address to, uint256 v) external returns (bool);\n}\n",
+        "contract HolderA {\n    address keeperA;\n    function %X%() public {\n        require(msg.sender == keeperA);\n        selfdestruct(payable(msg.sender));\n    }\n    function _%X%() internal {}\n}\n",
+        "function %X%(uint256 v) pure returns (uint256) {\n    return v * 4;\n}\n",
+        "contract HolderA {\n    event %X%(uint256 v);\n    error %X%Failed();\n    function emitA() external {\n        emit %X%(1);\n    }\n}\n",
+        "abstract contract %X% {\n    uint256 internal baseA;\n    constructor(uint256 v) {\n        baseA = v;\n    }\n    function hookA() internal virtual;\n}\n",
+        "contract %X% {\n    address immutable ownerA;\n    constructor() {\n        ownerA = msg.sender;\n    }\n    function killA() external {\n        if (msg.sender != ownerA) revert();\n        selfdestruct(payable(ownerA));\n    }\n}\n",
+    ];
+    let users: [&str; 12] = [
+        "contract UserB {\n    bool armedB;\n    modifier %X%() {\n        require(armedB, \"not armed\");\n        _;\n    }\n    function armB() public {\n        armedB = true;\n    }\n    function boomB() public %X% {\n        selfdestruct(payable(address(0)));\n    }\n}\n",
+        "contract UserB {\n    function boomB() external %X% {\n        selfdestruct(payable(address(0)));\n    }\n}\n",
+        "contract UserB {\n    bool aB;\n    uint256 bB;\n    %X% mB;\n}\n",
+        "contract UserB {\n    %X% mB;\n    uint256 bB;\n    bool aB;\n    uint128 hB;\n}\n",
+        "contract UserB {\n    struct PB {\n        bool a;\n        uint256 b;\n        %X% m;\n    }\n    struct QB {\n        %X% m;\n        uint128 h;\n        uint256 b;\n        uint128 g;\n    }\n}\n",
+        "struct PB {\n    bool a;\n    uint256 b;\n    %X% m;\n}\n",
+        "contract UserB {\n    uint256 totalB;\n    function runB(address t, uint256 v) external {\n        %X%(t).transfer(msg.sender, v);\n        totalB = totalB + v / 3 * 2;\n    }\n}\n",
+        "contract UserB {\n    using %X% for uint256;\n    uint256[] itemsB;\n    function fB(uint256 v) public returns (uint256) {\n        for (uint256 i = 0; i < itemsB.length; i++) {\n            v = v.add(itemsB[i]);\n        }\n        return v;\n    }\n}\n",
+        "contract UserB {\n    function %X%() external {\n        selfdestruct(payable(msg.sender));\n    }\n    function _%X%() private {}\n    function %X%(uint256 v) public returns (uint256) {\n        return v / 3 * 2;\n    }\n}\n",
+        "contract UserB {\n    uint256 nB;\n    function gB(%X% memory p, uint256[] memory q) public returns (uint256) {\n        %X% memory l = p;\n        nB = q.length;\n        return nB;\n    }\n    constructor() {\n        nB = 2;\n    }\n}\n",
+        "contract UserB is %X% {\n    address ownerB;\n    uint256 public countB;\n    constructor() %X%(1) {\n        ownerB = msg.sender;\n    }\n    function bumpB() public {\n        countB += 1;\n    }\n    function endB() public {\n        selfdestruct(payable(ownerB));\n    }\n}\n",
+        "contract UserB {\n    uint256 valueB;\n    function emitB(uint256 v) external {\n        if (v == 0) revert %X%Failed();\n        emit %X%(v);\n        valueB = %X%(v);\n    }\n}\n",
+    ];
+    let names = ["auth", "Mode", "guard", "Lib"];
+    let total = (definers.len() * users.len() * 2 * names.len()) as u64;
+    let mut i = (k % total) as usize;
+    let d = definers[i % definers.len()];
+    i /= definers.len();
+    let u = users[i % users.len()];
+    i /= users.len();
+    let a_first = i % 2 == 0;
+    i /= 2;
+    let x = names[i % names.len()];
+    let mut out = String::from(*rng.pick(&["pragma solidity 0.8.17;\n", "pragma solidity 0.7.6;\n", "pragma solidity ^0.8.4;\n\n"]));
+    let (first, second) = if a_first { (d, u) } else { (u, d) };
+    out.push_str(&first.replace("%X%", x));
+    if k >= total && rng.chance(1, 2) {
+        // beyond the systematic part: an unrelated item in between
+        out.push_str("contract FillerC {\n    uint8 smallC;\n    uint256 bigC;\n    uint8 tinyC;\n    function updateC(uint256 v) public returns (uint256) {\n        return v / 3 * 2;\n    }\n}\n");
+    }
+    out.push_str(&second.replace("%X%", x));
+    (total, out)
+}
+
 pub fn run(ctx: &Ctx) -> i32 {
     let mut acc = Acc::default();
     let mut meta = Meta::new(
         "files with >= 2 non-pragma top-level items whose items do not mention each other's state-variable names: generated files, hand-shaped files \
          (library/interface/free function before a contract with a leading constructor, two contracts with misplaced constructors, constructor-less contract next to one with a constructor, structs), \
-         corpus files and concatenations of two corpus files. For each of the 28 detectors (all but the SafeMath pair): lines(file) == union over items of lines(file with every other item blanked, newlines kept). \
+         corpus files and concatenations of two corpus files; namesake pairs (13 declaring items x 12 items declaring or using the same name as a modifier, type, library, interface, base contract, function, event or error x both orders x 4 names, all combinations in both tiers). For each of the 28 detectors (all but the SafeMath pair): lines(file) == union over items of lines(file with every other item blanked, newlines kept). \
          evaluation = one (file, detector) comparison; non-trivial = file where at least one detector reports something; distinct by file text",
     );
     let progs = corpus::load();
@@ -277,6 +330,19 @@ pub fn run(ctx: &Ctx) -> i32 {
             }
         }
     });
+    let total_ns = namesakes(0, &Rng::from_seed(1)).0;
+    let n_ns = ctx.tier.pick(total_ns, total_ns * 3);
+    run_workload(ctx, &mut acc, "namesakes", n_ns, |k, rng, acc| {
+        let (_, t) = namesakes(k, rng);
+        if check_file(&format!("namesakes#{}", k), &t, acc) {
+            acc.cov("programs:namesakes");
+            if k == 0 {
+                acc.sample(json!({"program": "namesakes#0", "text": t}));
+            }
+        } else {
+            acc.cov("programs:namesakes-skipped-or-discarded");
+        }
+    });
     let n = ctx.tier.pick(400u64, 100000u64);
     run_workload(ctx, &mut acc, "generated", n, |k, rng, acc| {
         let mut cfg = Cfg::normal();
@@ -303,6 +369,9 @@ pub fn run(ctx: &Ctx) -> i32 {
     if ctx.replay.is_none() {
         if acc.cov_get("comparisons-with-findings") < 500 {
             acc.inconclusive(format!("coverage floor: only {} comparisons had findings", acc.cov_get("comparisons-with-findings")));
+        }
+        if acc.cov_get("programs:namesakes") < total_ns * 9 / 10 {
+            acc.inconclusive(format!("coverage floor: only {} of {} namesake combinations were checked", acc.cov_get("programs:namesakes"), total_ns));
         }
         for key in ["adjacent:library>contract", "adjacent:contract>contract", "adjacent:free-function>contract", "adjacent:interface>contract"] {
             if acc.cov_get(key) < 5 {
